@@ -416,10 +416,47 @@ pub fn drd(opts: DrdOpts, elev: BoxedStrategy<u8>, subset: Option<u16>) -> impl 
             physical_order,
             gaps,
         })
+        .prop_flat_map(move |d| {
+            // degenerate variant: every scalar field of the header and of the VOL/ELV/RAD blocks zero (the elevation
+            // number, a valid date-time and a known VCP number are kept where the caller demands them)
+            let mut z = d.clone();
+            z.header = DrdHeaderSpec {
+                radar_id: [0; 4],
+                time: if opts.valid_datetime { d.header.time } else { 0 },
+                date: if opts.valid_datetime { d.header.date } else { 0 },
+                az_num: 0,
+                az_angle_bits: 0,
+                compression: 0,
+                spare: 0,
+                radial_length: 0,
+                az_spacing: 0,
+                status: 0,
+                elev_num: d.header.elev_num,
+                cut_sector: 0,
+                elev_angle_bits: 0,
+                spot: 0,
+                az_index: 0,
+            };
+            if let Some(v) = z.vol.as_mut() {
+                *v = VolSpec { id_type: 0, lrtup: 0, major: 0, minor: 0, lat_bits: 0, lon_bits: 0, site_height: 0, feedhorn: 0, calib_bits: 0, htx_bits: 0, vtx_bits: 0, zdr_bits: 0, phi_bits: 0, vcp: if opts.known_vcp { v.vcp } else { 0 }, processing: 0, zdr_bias: 0, spare: [0; 6] };
+            }
+            if let Some(e) = z.elv.as_mut() {
+                *e = ElvSpec { id_type: 0, lrtup: 0, atmos: 0, calib_bits: 0 };
+            }
+            if let Some(r) = z.rad.as_mut() {
+                *r = RadSpec { id_type: 0, lrtup: 0, unamb_range: 0, hnoise_bits: 0, vnoise_bits: 0, nyquist: 0, flags: 0, hcal_bits: 0, vcal_bits: 0 };
+            }
+            prop_oneof![24 => Just(d), 1 => Just(z)]
+        })
 }
 
 pub fn rda() -> impl Strategy<Value = RdaSpec> {
-    vec(any::<u16>(), 60).prop_map(|hw| RdaSpec { hw })
+    prop_oneof![
+        14 => vec(any::<u16>(), 60).prop_map(|hw| RdaSpec { hw }),
+        // degenerate messages: every halfword zero / every halfword all-ones
+        1 => Just(RdaSpec { hw: vec![0; 60] }),
+        1 => Just(RdaSpec { hw: vec![0xFFFF; 60] }),
+    ]
 }
 
 pub fn cut() -> impl Strategy<Value = CutSpec> {
@@ -465,6 +502,19 @@ pub fn cut() -> impl Strategy<Value = CutSpec> {
         )
 }
 
+/// `cut()` with a share of degenerate all-zero cuts.
+pub fn cut_or_zero() -> impl Strategy<Value = CutSpec> {
+    cut().prop_flat_map(|c| {
+        let z = CutSpec {
+            elevation_angle: 0, channel: 0, waveform: 0, super_res: 0, surv_prf: 0, surv_count: 0, azimuth_rate: 0,
+            ref_thr: 0, vel_thr: 0, sw_thr: 0, zdr_thr: 0, phi_thr: 0, rho_thr: 0,
+            s1_edge: 0, s1_prf: 0, s1_count: 0, supplemental: 0, s2_edge: 0, s2_prf: 0, s2_count: 0, ebc: 0,
+            s3_edge: 0, s3_prf: 0, s3_count: 0, reserved: 0,
+        };
+        prop_oneof![19 => Just(c), 1 => Just(z)]
+    })
+}
+
 /// Realistic cut: channel 0..=3, waveform 0..=6, super-res low bits.
 pub fn realistic_cut() -> impl Strategy<Value = CutSpec> {
     (cut(), 0u8..=3, 0u8..=6, 0u8..=15).prop_map(|(mut c, ch, wf, sr)| {
@@ -503,8 +553,14 @@ pub fn vcp_header(declared: u16) -> impl Strategy<Value = VcpHeaderSpec> {
 
 /// A well-formed VCP with k cuts, k drawn from `cuts`.
 pub fn vcp(cuts: BoxedStrategy<usize>) -> impl Strategy<Value = VcpSpec> {
-    cuts.prop_flat_map(|k| (vcp_header(k as u16), vec(cut(), k)))
-        .prop_map(|(header, cuts)| VcpSpec { header, cuts })
+    cuts.prop_flat_map(|k| (vcp_header(k as u16), vec(cut_or_zero(), k), 0u8..20))
+        .prop_map(|(mut header, cuts, degenerate)| {
+            if degenerate == 0 {
+                // degenerate header: every field zero except the declared cut count
+                header = VcpHeaderSpec { message_size: 0, pattern_type: 0, pattern_number: 0, declared_cuts: header.declared_cuts, version: 0, clutter_group: 0, doppler_res: 0, pulse_width: 0, reserved1: 0, sequencing: 0, supplemental: 0, reserved2: 0 };
+            }
+            VcpSpec { header, cuts }
+        })
 }
 
 pub fn vcp_cut_count() -> BoxedStrategy<usize> {
@@ -545,7 +601,7 @@ pub fn cfm_zone() -> impl Strategy<Value = (u16, u16)> {
 
 /// Clutter filter map with `segments` elevation segments; zone counts mostly 0..=25.
 pub fn cfm(segments: BoxedStrategy<usize>) -> impl Strategy<Value = CfmSpec> {
-    (valid_date(), 0u16..1440, segments)
+    (prop_oneof![12 => valid_date().boxed(), 1 => Just(0u16).boxed()], prop_oneof![12 => (0u16..1440).boxed(), 1 => Just(0u16).boxed(), 1 => any::<u16>().boxed()], segments)
         .prop_flat_map(|(date, minutes, s)| {
             // per segment: a base zone-count pattern, cheap to generate for 360 azimuths
             let seg = (vec(0usize..=25, 4), any::<u64>(), vec(cfm_zone(), 8)).prop_map(|(counts, seed, zones)| {
